@@ -606,3 +606,52 @@ go_run_molecule = FunctionContract(
     canary=[("self.compute_go_interaction(contacts)", "pass"), ("self.res_graph = make_residue_graph(molecule)", "res_graph = make_residue_graph(molecule)")],
 )
 CONTRACTS.append(go_run_molecule)
+
+
+# ------------------------------------------------------------------ VirtualSiteCreator.run_molecule: the sites are named after the molecule's own type
+def setup_vs_run(cx):
+    from pyvc.builtins import list_append
+    moltype = cx.val('MOLTYPE', TOpt(TStr))                  # molecule.meta.get('moltype')
+    has_system = cx.val('HAS_SYSTEM', TBool)
+    cx.spec_env.update(MOLTYPE=moltype, HAS_SYSTEM=has_system)
+    VS = cx.heap('VS_CALLS', cx.box('VS_CALLS', TSeq(TStr)))     # calls of add_virtual_sites: the prefix given
+    CIT = cx.heap('CITED', cx.box('CITED', TSeq(TStr)))
+    backbone, atomname = Obj('backbone'), Obj('atomname')
+
+    def meta_get(e, k, d=None):
+        if k != 'moltype' or d is not None:
+            raise EngineError('meta.get(%r, %r)' % (k, d))
+        return moltype
+    molecule = Obj('Molecule', meta=Obj('meta', get=Builtin(meta_get, 'meta.get')),
+                   citations=Obj('citations', add=Builtin(lambda e, c: list_append(e, CIT, c), 'citations.add')))
+
+    def avs(e, mol, prefix=None, backbone=None, atomname=None, **kw):
+        e.oblige(mol is molecule and backbone is bb and atomname is an and not kw, 'sites:on-this-molecule-with-the-configured-selection-and-name')
+        ot = TOpt(TStr)
+        if isinstance(prefix, SV) and prefix.ty == ot:
+            e.oblige(z3.Not(ot.is_none(prefix.e)), 'sites:prefix-is-a-name')
+            prefix = SV(TStr, ot.get(prefix.e))
+        list_append(e, VS, prefix)
+    bb, an = backbone, atomname
+    sysobj = Obj('system')
+    sysobj.__dict__['truth'] = has_system.e
+    me = Obj('VirtualSiteCreator', system=sysobj, backbone=backbone, atomname=atomname, add_virtual_sites=Builtin(avs, 'add_virtual_sites'))
+    return dict(self=me, molecule=molecule)
+
+
+vs_run_molecule = FunctionContract(
+    F, 'VirtualSiteCreator.run_molecule', 'C18', short='VirtualSiteCreator.run_molecule', setup=setup_vs_run,
+    requires=["len(old(VS_CALLS)) == 0 and len(old(CITED)) == 0"],
+    ensures=[
+        # the sites of a molecule are created once, with the molecule's own type name as prefix of their bead types ("named after the
+        # molecule"), on the configured backbone selection and atom name; the Go model is cited
+        "MOLTYPE is not None and len(payload(MOLTYPE)) > 0 and HAS_SYSTEM",
+        "len(VS_CALLS) == 1 and VS_CALLS[0] == payload(MOLTYPE)",
+        "len(CITED) == 1 and CITED[0] == 'M3_GO'",
+    ],
+    # no type name, or no system: ValueError before anything is created
+    raises={'ValueError': ["MOLTYPE is None or len(payload(MOLTYPE)) == 0 or not HAS_SYSTEM", "len(VS_CALLS) == 0 and len(CITED) == 0"]},
+    modifies=['VS_CALLS', 'CITED'],
+    canary=[("prefix=moltype,", "prefix='molecule_0',"), ("if not moltype:", "if moltype:")],
+)
+CONTRACTS.append(vs_run_molecule)
